@@ -1,7 +1,8 @@
 (* The heap machine of Model/ChargeHeap.v (arrays passed by reference, caller-side mutations) refines the
    by-value machine of Model/Charge.v: for a caller that only writes into what it owns, every observation equals
    that of the by-value history in which each addition contributes the value its argument held at the time of
-   the call; and the caller's own memory is never written by the container. *)
+   the call; the caller's own memory is never written by the container; an array handed out by to_xarray is a
+   snapshot that only the caller changes. *)
 From Coq Require Import ZArith QArith Qround List Bool Lia Arith.
 From PyxelV Require Import Model.Charge Model.ChargeHeap Proofs.ChargeLemmas.
 Import ListNotations.
@@ -25,6 +26,11 @@ Proof. intros Hn. apply nth_error_app1; auto. Qed.
 
 Lemma nth_error_snoc_eq {A} (l : list A) x : nth_error (l ++ [x]) (length l) = Some x.
 Proof. rewrite nth_error_app2 by lia. rewrite Nat.sub_diag. reflexivity. Qed.
+
+Lemma nth_error_app1_some {A} (l l' : list A) n x : nth_error l n = Some x -> nth_error (l ++ l') n = Some x.
+Proof.
+  intros E. rewrite nth_error_app1; auto. apply nth_error_Some. congruence.
+Qed.
 
 Lemma nth_error_snoc_inv {A} (l : list A) x n y :
   nth_error (l ++ [x]) n = Some y -> nth_error l n = Some y \/ (n = length l /\ y = x).
@@ -325,10 +331,10 @@ Lemma hexec_sim g : forall ops hs kinds cm,
   Good cm kinds hs -> disc kinds ops = true ->
   option_map vstate (hexec H P g (Some hs) ops) = execP P g (Some (vstate hs)) (erase cm ops) /\
   forall hs', hexec H P g (Some hs) ops = Some hs' ->
-    exists kinds', Good (fold_left cm_step ops cm) kinds' hs'.
+    Good (fold_left cm_step ops cm) (fold_left kinds_step ops kinds) hs'.
 Proof.
   induction ops as [|o t IH]; intros hs kinds cm HG Hd.
-  - simpl. split; auto. intros hs' E. inversion E; subst. exists kinds; auto.
+  - simpl. split; auto. intros hs' E. inversion E; subst. auto.
   - simpl in Hd. apply andb_true_iff in Hd. destruct Hd as [Hd1 Hd2].
     destruct (hstep_sim g hs kinds cm o HG Hd1) as [Hs Hn].
     simpl erase. unfold hexec, execP in *. simpl fold_left.
@@ -377,8 +383,8 @@ Proof.
   destruct (hexec_sim g ops (hinit g) [] ([], []) (Good_init g) Hd) as [He Hg].
   rewrite vstate_init in He. rewrite <- He.
   destruct (hexec H P g (Some (hinit g)) ops) as [hs'|] eqn:E; [|reflexivity].
-  destruct (Hg hs' eq_refl) as [kinds' HG].
-  destruct (hstep_sim g hs' kinds' (fold_left cm_step ops ([], [])) (HRead RkArray) HG eq_refl) as [Hs _].
+  pose proof (Hg hs' eq_refl) as HG.
+  destruct (hstep_sim g hs' _ (fold_left cm_step ops ([], [])) (HRead RkArray) HG eq_refl) as [Hs _].
   change (snd (hstep H P g hs' (HRead RkArray)) = snd (stepP P g (vstate hs') Read)).
   simpl erase1 in Hs. rewrite Hs. reflexivity.
 Qed.
@@ -399,8 +405,201 @@ Theorem caller_memory_untouched g ops hs :
   (h_args hs, h_dfs hs) = caller_mem ops.
 Proof.
   intros Hd E. destruct (hexec_sim g ops (hinit g) [] ([], []) (Good_init g) Hd) as [_ Hg].
-  destruct (Hg hs E) as [kinds' [_ [Ha Hb]]]. unfold caller_mem. rewrite Ha, Hb.
+  destruct (Hg hs E) as [_ [Ha Hb]]. unfold caller_mem. rewrite Ha, Hb.
   destruct (fold_left cm_step ops ([], [])); reflexivity.
+Qed.
+
+(* ---------------------------------------------------------------- arrays handed out by to_xarray are snapshots *)
+
+(* hs' keeps every container cell of hs other than the stored one, and the stored reference stays off them *)
+Definition Keeps (hs hs' : hstate) : Prop :=
+  (length (h_cells hs) <= length (h_cells hs'))%nat /\
+  forall c', (c' < length (h_cells hs))%nat -> RCell c' <> h_arr hs ->
+    nth_error (h_cells hs') c' = nth_error (h_cells hs) c' /\ RCell c' <> h_arr hs'.
+
+Lemma Keeps_refl hs : Keeps hs hs.
+Proof. split; auto. Qed.
+
+Lemma Keeps_trans a b c : Keeps a b -> Keeps b c -> Keeps a c.
+Proof.
+  intros [L1 K1] [L2 K2]. split; [lia|]. intros c' Hc Hn. destruct (K1 c' Hc Hn) as [E1 N1].
+  destruct (K2 c' (Nat.lt_le_trans _ _ _ Hc L1) N1) as [E2 N2]. split; congruence.
+Qed.
+
+Lemma Keeps_same_cells hs hs' :
+  h_cells hs' = h_cells hs -> h_arr hs' = h_arr hs -> Keeps hs hs'.
+Proof. intros E A. split; [rewrite E; auto|]. intros c' _ Hn. rewrite E, A. auto. Qed.
+
+Lemma Keeps_store_own hs c m : h_arr hs = RCell c -> Keeps hs (store hs (RCell c) m).
+Proof.
+  intros Ha. split; unfold store; simpl; [rewrite upd_length; auto|]. intros c' Hc Hn. split; auto.
+  apply nth_error_upd_other. intros ->. apply Hn. auto.
+Qed.
+
+Lemma Keeps_set_arr hs m : Keeps hs (set_arr hs m).
+Proof.
+  split; unfold set_arr; simpl; [rewrite app_length; lia|]. intros c' Hc Hn. split.
+  - apply nth_error_snoc_lt; auto.
+  - intros E. inversion E. lia.
+Qed.
+
+Lemma Keeps_ret_copy hs k m : Keeps hs (ret_copy hs k m).
+Proof.
+  split; unfold ret_copy; simpl; [rewrite app_length; lia|]. intros c' Hc Hn. split; auto.
+  apply nth_error_snoc_lt; auto.
+Qed.
+
+Lemma Keeps_hremoved g hs f' : Keeps hs (hremoved g hs f').
+Proof.
+  unfold hremoved. destruct (h_frame hs); [|destruct f'].
+  - apply Keeps_same_cells; reflexivity.
+  - eapply Keeps_trans; [apply Keeps_set_arr|apply Keeps_same_cells; reflexivity].
+  - apply Keeps_same_cells; reflexivity.
+Qed.
+
+Lemma hstep_keeps g hs kinds cm o hs' :
+  Good cm kinds hs -> disc1 kinds o = true -> writes_result o = false ->
+  fst (hstep H P g hs o) = Some hs' -> Keeps hs hs'.
+Proof.
+  intros [[c HI] _] Hd Hw E. pose proof HI as [Ha _].
+  destruct o as [a|h a|h|cs|k cs|k|cs|k| | |ids| ]; simpl in E.
+  - inversion E; subst. apply Keeps_same_cells; reflexivity.
+  - destruct h as [k|j]; [|discriminate]. simpl in E.
+    destruct (k <? length (h_args hs))%nat; inversion E; subst; [apply Keeps_same_cells; reflexivity|apply Keeps_refl].
+  - destruct h as [k|j]; [|discriminate]. simpl in E.
+    destruct (k <? length (h_args hs))%nat; simpl in E; [|inversion E; subst; apply Keeps_refl].
+    destruct (nth_error (h_args hs) k) as [a|]; [|inversion E; subst; apply Keeps_refl].
+    destruct (shape_ok (g_rows g) (g_cols g) a); [|inversion E; subst; apply Keeps_refl].
+    destruct (h_frame hs); inversion E; subst; [|apply Keeps_same_cells; reflexivity].
+    unfold add_array_mode. destruct Hok as [Hna _]. destruct (hp_add H); [| |congruence].
+    + rewrite Ha. apply Keeps_store_own; auto.
+    + apply Keeps_set_arr.
+  - inversion E; subst. apply Keeps_same_cells; reflexivity.
+  - inversion E; subst. apply Keeps_same_cells; reflexivity.
+  - destruct (nth_error (h_dfs hs) k); inversion E; subst; [apply Keeps_same_cells; reflexivity|apply Keeps_refl].
+  - inversion E; subst. apply Keeps_same_cells; reflexivity.
+  - unfold ret in E. destruct (h_frame hs).
+    + simpl in E. inversion E; subst. destruct (exposes H k); [apply Keeps_same_cells; reflexivity|apply Keeps_ret_copy].
+    + destruct (to_arrayP P g _) as [m|]; simpl in E; [|discriminate]. inversion E; subst.
+      eapply Keeps_trans; [apply Keeps_set_arr|].
+      destruct (exposes H k); [apply Keeps_same_cells; reflexivity|apply Keeps_ret_copy].
+  - inversion E; subst. apply Keeps_refl.
+  - inversion E; subst. apply Keeps_hremoved.
+  - destruct ids; inversion E; subst; apply Keeps_hremoved.
+  - inversion E; subst. eapply Keeps_trans; [apply Keeps_set_arr|apply Keeps_same_cells; reflexivity].
+Qed.
+
+Lemma disc_app : forall a b kinds,
+  disc kinds (a ++ b) = disc kinds a && disc (fold_left kinds_step a kinds) b.
+Proof.
+  induction a as [|o a IH]; intros b kinds; simpl; auto. rewrite IH. apply andb_assoc.
+Qed.
+
+(* An array handed out by to_xarray holds the value it was given (or what the CALLER wrote into it since) across
+   every further operation of the container and every caller write to another object. *)
+Theorem xarray_result_is_a_snapshot g ops o hs hs' j r :
+  disciplined (ops ++ [o]) = true -> writes_result o = false ->
+  hexec H P g (Some (hinit g)) ops = Some hs -> fst (hstep H P g hs o) = Some hs' ->
+  nth_error (h_res hs) j = Some (RkXr, r) ->
+  nth_error (h_res hs') j = Some (RkXr, r) /\ deref hs' r = deref hs r /\ deref hs r <> None.
+Proof.
+  intros Hd Hw E Es Hj. unfold disciplined in Hd. rewrite disc_app in Hd. apply andb_true_iff in Hd.
+  destruct Hd as [Hd1 Hd2]. simpl in Hd2. rewrite andb_true_r in Hd2.
+  destruct (hexec_sim g ops (hinit g) [] ([], []) (Good_init g) Hd1) as [_ Hg]. pose proof (Hg hs E) as HG.
+  pose proof (hstep_keeps g hs _ _ o hs' HG Hd2 Hw Es) as [_ K].
+  destruct HG as [[c [Ha [Hc [Hk Hx]]]] _]. destruct (Hx j r Hj) as [c' [-> [Hc' Hne]]].
+  assert (Hn : RCell c' <> h_arr hs) by (rewrite Ha; congruence).
+  destruct (K c' Hc' Hn) as [E1 _]. repeat split.
+  - (* reads only append to h_res *)
+    clear - Es Hj. destruct o; simpl in Es;
+      repeat match type of Es with
+             | context [match ?x with _ => _ end] => destruct x; simpl in Es
+             end; try discriminate; inversion Es; subst; simpl; auto;
+      unfold hremoved, add_array_mode, ret_stored, ret_copy, store, set_arr, set_frame; simpl;
+      repeat match goal with
+             | |- context [match ?x with _ => _ end] => destruct x; simpl
+             end; auto; try (apply nth_error_app1_some; auto).
+  - simpl. exact E1.
+  - simpl. intros E0. apply nth_error_None in E0. lia.
+Qed.
+
+(* distinct to_xarray results are distinct objects *)
+Definition XrInj (hs : hstate) : Prop :=
+  forall j j' r, nth_error (h_res hs) j = Some (RkXr, r) -> nth_error (h_res hs) j' = Some (RkXr, r) -> j = j'.
+
+Lemma hstep_res g hs kinds cm o hs' :
+  Good cm kinds hs -> fst (hstep H P g hs o) = Some hs' ->
+  h_res hs' = h_res hs \/
+  exists k r', h_res hs' = h_res hs ++ [(k, r')] /\
+               (k = RkXr -> exists c', r' = RCell c' /\ (length (h_cells hs) <= c')%nat).
+Proof.
+  intros [[c HI] _] E.
+  destruct o as [a|h a|h|cs|k cs|k|cs|k| | |ids| ]; simpl in E;
+    try (left; repeat match type of E with
+                      | context [match ?x with _ => _ end] => destruct x; simpl in E
+                      end; try discriminate; inversion E; subst;
+         unfold hremoved, add_array_mode, store, set_arr, set_frame; simpl;
+         repeat match goal with |- context [match ?x with _ => _ end] => destruct x; simpl end; reflexivity).
+  right. unfold ret in E. destruct (h_frame hs).
+  - simpl in E. inversion E; subst. destruct (exposes H k) eqn:Ex.
+    + exists k, (h_arr hs). split; [reflexivity|]. intros ->. rewrite exposes_xr in Ex. discriminate.
+    + exists k, (RCell (length (h_cells hs))). split; [reflexivity|]. intros _. eexists; split; [reflexivity|lia].
+  - destruct (to_arrayP P g _) as [m|]; simpl in E; [|discriminate]. inversion E; subst.
+    destruct (exposes H k) eqn:Ex.
+    + exists k, (h_arr (set_arr hs m)). split; [reflexivity|]. intros ->. rewrite exposes_xr in Ex. discriminate.
+    + exists k, (RCell (length (h_cells (set_arr hs m)))). split; [reflexivity|]. intros _.
+      eexists; split; [reflexivity|]. unfold set_arr; simpl. rewrite app_length. lia.
+Qed.
+
+Lemma hstep_xrinj g hs kinds cm o hs' :
+  Good cm kinds hs -> XrInj hs -> fst (hstep H P g hs o) = Some hs' -> XrInj hs'.
+Proof.
+  intros HG HI E. destruct (hstep_res g hs kinds cm o hs' HG E) as [R|[k [r' [R Hr]]]]; unfold XrInj; rewrite R; auto.
+  destruct HG as [[c [_ [_ [_ Hx]]]] _].
+  intros j j' r Hj Hj'. apply nth_error_snoc_inv in Hj. apply nth_error_snoc_inv in Hj'.
+  destruct Hj as [Hj|[Hj1 Hj2]]; destruct Hj' as [Hj'|[Hj'1 Hj'2]]; try lia; eauto.
+  - inversion Hj'2; subst k r'. destruct (Hr eq_refl) as [c' [-> Hc']].
+    destruct (Hx j _ Hj) as [c'' [Ec [Hlt _]]]. inversion Ec. lia.
+  - inversion Hj2; subst k r'. destruct (Hr eq_refl) as [c' [-> Hc']].
+    destruct (Hx j' _ Hj') as [c'' [Ec [Hlt _]]]. inversion Ec. lia.
+Qed.
+
+Lemma hexec_xrinj g : forall ops hs kinds cm hs',
+  Good cm kinds hs -> XrInj hs -> disc kinds ops = true -> hexec H P g (Some hs) ops = Some hs' -> XrInj hs'.
+Proof.
+  induction ops as [|o t IH]; intros hs kinds cm hs' HG HI Hd E.
+  - inversion E; subst; auto.
+  - simpl in Hd. apply andb_true_iff in Hd. destruct Hd as [Hd1 Hd2].
+    destruct (hstep_sim g hs kinds cm o HG Hd1) as [_ Hn].
+    unfold hexec in E. simpl in E. destruct (fst (hstep H P g hs o)) as [hs1|] eqn:E1.
+    + apply (IH hs1 _ _ hs' Hn (hstep_xrinj g hs kinds cm o hs1 HG HI E1) Hd2 E).
+    + fold (hexec H P g None t) in E. rewrite hexec_none in E. discriminate.
+Qed.
+
+(* ... and when the caller overwrites one of them, that one holds what the caller wrote and every other one is
+   untouched *)
+Theorem xarray_result_written_by_caller g ops j' a hs j r :
+  disciplined (ops ++ [HWrite (HRes j') a]) = true ->
+  hexec H P g (Some (hinit g)) ops = Some hs ->
+  nth_error (h_res hs) j = Some (RkXr, r) ->
+  exists hs', fst (hstep H P g hs (HWrite (HRes j') a)) = Some hs' /\ h_res hs' = h_res hs /\
+    deref hs' r = if (j =? j')%nat then Some a else deref hs r.
+Proof.
+  intros Hd E Hj. unfold disciplined in Hd. rewrite disc_app in Hd. apply andb_true_iff in Hd.
+  destruct Hd as [Hd1 Hd2]. simpl in Hd2. rewrite andb_true_r in Hd2.
+  destruct (hexec_sim g ops (hinit g) [] ([], []) (Good_init g) Hd1) as [_ Hg]. pose proof (Hg hs E) as HG.
+  assert (HI : XrInj hs).
+  { apply (hexec_xrinj g ops (hinit g) [] ([], []) hs (Good_init g)); auto. intros [|?] [|?] ? Hn; discriminate. }
+  destruct HG as [[c [Ha [Hc [Hk Hx]]]] _].
+  destruct (nth_error (fold_left kinds_step ops []) j') as [[| |]|] eqn:Ej; try discriminate.
+  rewrite <- Hk, nth_error_map' in Ej. destruct (nth_error (h_res hs) j') as [[k0 r0]|] eqn:Er; try discriminate.
+  simpl in Ej. inversion Ej; subst k0.
+  destruct (Hx j' r0 Er) as [c0 [-> [Hc0 Hne0]]]. destruct (Hx j r Hj) as [c1 [-> [Hc1 Hne1]]].
+  simpl. unfold resolve. rewrite Er. simpl. eexists. split; [reflexivity|]. split; [reflexivity|].
+  unfold store, deref; simpl. destruct (Nat.eqb_spec j j') as [->|Hjj].
+  - rewrite Er in Hj. inversion Hj; subst c1. rewrite nth_error_upd_same.
+    destruct (nth_error (h_cells hs) c0) eqn:En; [reflexivity|]. apply nth_error_None in En. lia.
+  - apply nth_error_upd_other. intros ->. apply Hjj. symmetry. apply (HI j' j (RCell c1)); auto.
 Qed.
 End Sim.
 
